@@ -25,8 +25,8 @@ from .core import Chooser, Digest, HarnessError, Outcome, Violation, classify_ex
 
 PROP = "C19"
 RULE = (
-    "each run is a history of 3-25 steps over a pool of <=16 live values: CRS construction through 12 spec routes for 11 codes and 2 custom "
-    "definitions, composite values (BoundingBox, Geometry, GeoBox, GCPGeoBox, GeoboxTiles, GridSpec, Tiles, VariableSizedTiles, XY family) drawn "
+    "each run is a history of 3-25 steps over a pool of <=16 live values: CRS construction through 15 spec routes for 15 EPSG codes, 4 custom "
+    "definitions (one compound, one on which pyproj's == is not transitive) and 6 PROJ strings, composite values (BoundingBox, Geometry, GeoBox, GCPGeoBox, GeoboxTiles, GridSpec, Tiles, VariableSizedTiles, XY family) drawn "
     "from families of near-identical members, copy / pickle, transformer requests checked against pyproj, reference drops, gc.collect(), address "
     "churn, and racing constructions by 2-3 pre-empted threads; after every step the laws are checked for the new values against the whole pool. "
     "Non-trivial: at least 2 CRS values and one of {transformer, drop+gc, race, composite}. Distinct: the step list plus race interleaving."
@@ -43,6 +43,7 @@ ASSUMPTIONS = [
     "reference transformers are built by pyproj from EPSG codes / the custom definitions (1 m / 1e-5 degree tolerance, confirmed against a transformer built from the two CRSs' own WKT before reporting)",
     "object-identity reuse depends on the allocator: provoked by churn and counted (probe id_reuse_observed), not assumed",
     "pair laws are checked within a type (same class)",
+    "expected equality of two CRSs is pyproj's own == on reference objects built outside the library from the same definition and the same material (code, WKT text, PROJJSON, user text); where pyproj itself is non-transitive the triple is classified (D19l), never excused wholesale",
 ]
 
 # 2463 and 20064 are one definition under two EPSG codes (pyproj: equal)
